@@ -69,6 +69,20 @@ Theorem C15_reconstruct_differs_exactly : forall arem erem aign eign fuel a e ia
 Proof. exact reconstruct_differs_exactly. Qed.
 Print Assumptions C15_reconstruct_differs_exactly.
 
+(* When the two sides keep DIFFERENT numbers of lines the statement is false of the faithful model (and of the code:
+   known finding c15-postprocessed-pair-different-line-counts): with ignore_substrings ["A"] and the texts of
+   ReconProofs.c15_A / c15_E the assertion fails, no pattern diverges, a post-processed pair is written, and that pair
+   differs on a pair of lines whose difference is excused. *)
+Theorem C15_different_line_counts_refuted :
+  exists o orc A E r,
+    existsb (diverging o orc) (combine (prep o A) (prep o E)) = false /\
+    length (prep o A) <> length (prep o E) /\
+    r_verdict (check_strings o orc A E) = Fail /\
+    r_recon (check_strings o orc A E) = Some r /\
+    exists p, In p (diffpairs r) /\ differs o p = true /\ excused o orc p = true.
+Proof. exact different_line_counts_refuted_proof. Qed.
+Print Assumptions C15_different_line_counts_refuted.
+
 Example C15_binary_example :
   check_binary [1;2;3;4] [1;2;9;4;5] =
   Some {| bi_offset := 2; bi_actual_len := 4; bi_expected_len := 5 |}.
